@@ -139,11 +139,18 @@ def run(chk, repo, tier):
     for (rel, scope, name), node in sorted(shared.items()):
         if scope == '<module>':
             continue
-        chk.ob('R15.1', (rel, scope, name) in allowed_class_state, rel, node,
+        from ..match import readonly_literal_table
+        cls_node = [c for c in repo.mod(rel).tree.body if isinstance(
+            c, ast.ClassDef) and c.name == scope]
+        const = bool(cls_node) and readonly_literal_table(
+            repo.mod(rel).tree, cls_node[0], name)
+        chk.ob('R15.1', (rel, scope, name) in allowed_class_state or const,
+               rel, node,
                key='class-state:%s.%s' % (scope, name), qualname=scope,
                what='class-level container %s.%s is one of the registry/'
-                    'constant tables (anything else is shared by all '
-                    'instances: a cache or memo)' % (scope, name))
+                    'constant tables or a literal nothing writes to '
+                    '(anything else is shared by all instances: a cache or '
+                    'memo)' % (scope, name))
     # writers of shared state / globals
     nwriters = 0
     for rel, fn in repo.functions():
